@@ -5,7 +5,7 @@ PATCH=$1; PROP=$2; TIER=${3:-quick}
 WT=/tmp/wt-seedtest-$$
 git -C /repo worktree add --detach $WT HEAD >/dev/null 2>&1 || exit 9
 if ! git -C $WT apply "$PATCH"; then echo "PATCH DOES NOT APPLY"; git -C /repo worktree remove --force $WT; exit 8; fi
-cd /verif && VERIF_REPO=$WT VERIF_SKIP_BUILD=1 /venv/bin/python harness/run.py $PROP $TIER 2>&1 | grep -v "^KNOWN-FINDING" | tail -${LINES_OUT:-6}
+mkdir -p /tmp/seed-evid; cd /verif && VERIF_EVIDENCE_DIR=/tmp/seed-evid VERIF_REPO=$WT VERIF_SKIP_BUILD=1 /venv/bin/python harness/run.py $PROP $TIER 2>&1 | grep -v "^KNOWN-FINDING" | tail -${LINES_OUT:-6}
 RC=${PIPESTATUS[0]}
 git -C /repo worktree remove --force $WT >/dev/null 2>&1
 echo "exit=$RC"
